@@ -168,7 +168,9 @@ def vh(ctx, family, scenarios, extra=None, timeout=1800, race=False, env=None, n
         site = next((l.strip().split("(")[0] for l in head if l.strip().startswith("github.com/anz-bank/sysl/")), "unknown")
         part.append({"t": t, "e": "fatal", "msg": msg[:300], "site": site.replace("github.com/anz-bank/sysl/", "")})
         evs += part
-        idx = next(i for i, s in enumerate(todo) if s.get("id") == t)
+        # families whose trace ids are derived from the scenario id say which scenario a trace belongs to ("scn")
+        sid = starts[-1].get("scn", t)
+        idx = next(i for i, s in enumerate(todo) if s.get("id") == sid)
         todo = todo[idx + 1:]
         if not todo:
             return evs, "".join(errs)
